@@ -59,6 +59,10 @@ func c08World(t *testing.T, p c08Params) rt.Result {
 		ps := hz.StdPeer("10.0.1.1")
 		ps.Passive = p.Dir == "in"
 		v := pickVariety(r, p.Dir)
+		if r.IntN(3) == 0 {
+			v = v.withStorm(1 + r.IntN(3)) // plugin goroutines writing while the fault is answered
+		}
+		defer v.Kick()
 		v.apply(&ps, p.Seed)
 		s := bringV(w, ps, p.Dir, p.State, v)
 		if s == nil {
@@ -135,11 +139,12 @@ func c08World(t *testing.T, p c08Params) rt.Result {
 			sortInts(cs)
 		}
 		rc.W.Log.Add("tx", ps.Addr.String(), rc.ID, fmt.Sprintf("stream prefix=%d header=%s", p.Prefix, p.Header), "")
+		v.Kick()
 		rc.SendCuts(stream, cs, time.Nanosecond)
 		w.Settle()
 
 		desc := fmt.Sprintf("[%s/%s prefix=%d header=%s]", p.Dir, p.State, p.Prefix, p.Header)
-		got := rc.Msgs()[base:]
+		got := sansEcho(rc.Msgs()[base:])
 		eof, _ := rc.EOF()
 		// expected: wantKeepalive KEEPALIVEs, then exactly one NOTIFICATION among the allowed, then EOF
 		nk := 0
